@@ -16,6 +16,10 @@ INT_BITS = {"u8": 8, "u16": 16, "u32": 32, "u64": 64, "usize": 64, "u128": 128,
             "i8": 8, "i16": 16, "i32": 32, "i64": 64, "isize": 64}
 
 
+_HARMLESS_MUT = {"as_mut", "as_mut_slice", "as_mut_ptr", "deref_mut", "borrow_mut", "iter_mut", "by_ref", "get_mut", "first_mut", "last_mut",
+                 "index_mut", "fmt", "hash", "new", "pin", "get_unchecked_mut", "poll_read", "read_exact", "read", "write_all", "write", "flush",
+                 "block_on", "next", "reserve", "shrink_to_fit", "from_mut", "from_ref", "from_raw_parts_mut", "uninit", "split_at_mut", "chunks_mut",
+                 "chunks_exact_mut", "as_deref_mut", "as_pin_mut", "get_or_insert_with", "poll"}
 _OP_METHODS = {"add": "Add", "sub": "Sub", "mul": "Mul", "div": "Div", "rem": "Rem", "bitor": "BitOr", "bitand": "BitAnd",
                "bitxor": "BitXor", "shl": "Shl", "shr": "Shr"}
 
@@ -1068,6 +1072,13 @@ class PE:
         ctor = self._ctor(res, args)
         if ctor is not None:
             return ctor
+        # an unmodelled foreign call that receives `&mut` of something this evaluation tracks concretely may change it behind
+        # our back: the evaluation cannot go on as if nothing happened
+        for an, av in zip(e.get("args") or [], raw_args):
+            if isinstance(an, dict) and ((an.get("k") == "Borrow" and an.get("mut")) or (an.get("ty") or "").startswith("&mut ")):
+                tracked = isinstance(av, Ref) or (isinstance(av, (Adt, Tup)) and not (isinstance(av, Adt) and av.adt == "seq-iter"))
+                if tracked and name not in _HARMLESS_MUT:
+                    raise Undecided("unmodelled call %s receives a mutable reference to a tracked value" % (res or name))
         return Sym(("call", res, tuple(vkey(a) for a in args)), e.get("ty"))
 
     def _ctor(self, res, args):
@@ -1387,6 +1398,29 @@ class PE:
             if name in ("map", "filter"):
                 return Adt("seq-iter", "It", {"0": Tup(out)})
             return {"find": NONE, "position": NONE, "find_map": NONE, "any": False, "all": True}[name]
+        if name in ("take_while", "skip_while") and len(args) == 2:
+            k = 0
+            while k < len(items) and self.truth(self.apply(args[1], [items[k]]), e):
+                k += 1
+            return Adt("seq-iter", "It", {"0": Tup(items[:k] if name == "take_while" else items[k:])})
+        if name == "rposition" and len(args) == 2:
+            for i in range(len(items) - 1, -1, -1):
+                if self.truth(self.apply(args[1], [items[i]]), e):
+                    return some(i)
+            return NONE
+        if name == "filter_map" and len(args) == 2:
+            out = []
+            for x in items:
+                r = self.apply(args[1], [x])
+                if isinstance(r, Adt) and r.variant == "Some":
+                    out.append(r.fields.get("0", UNIT))
+                elif not (isinstance(r, Adt) and r.variant == "None"):
+                    raise Undecided("filter_map closure result %r" % (r,))
+            return Adt("seq-iter", "It", {"0": Tup(out)})
+        if name == "last" and len(args) == 1:
+            return some(items[-1]) if items else NONE
+        if name in ("min", "max") and len(args) == 1 and all(isinstance(x, int) and not isinstance(x, bool) for x in items):
+            return some((min if name == "min" else max)(items)) if items else NONE
         if name in ("collect", "to_vec", "into_vec") and len(args) == 1:
             return a0
         if name == "nth" and len(args) == 2 and isinstance(args[1], int):
